@@ -1147,12 +1147,8 @@ class PDFCIDFont(PDFFont):
                 raise PDFFontError("BaseFont is missing")
             self.basefont = "unknown"
         self.cidsysteminfo = dict_value(spec.get("CIDSystemInfo", {}))
-        cid_registry = resolve1(self.cidsysteminfo.get("Registry", b"unknown")).decode(
-            "latin1",
-        )
-        cid_ordering = resolve1(self.cidsysteminfo.get("Ordering", b"unknown")).decode(
-            "latin1",
-        )
+        cid_registry = self._get_cidsysteminfo_string("Registry")
+        cid_ordering = self._get_cidsysteminfo_string("Ordering")
         self.cidcoding = f"{cid_registry.strip()}-{cid_ordering.strip()}"
         self.cmap: CMapBase = self.get_cmap_from_spec(spec, strict)
 
@@ -1220,6 +1216,16 @@ class PDFCIDFont(PDFFont):
             widths = get_widths(list_value(spec.get("W", [])))
             default_width = num_value(spec.get("DW", 1000))
         PDFFont.__init__(self, descriptor, widths, default_width=default_width)
+
+    def _get_cidsysteminfo_string(self, key: str) -> str:
+        """Get the Registry or Ordering string of the CIDSystemInfo dictionary"""
+        value = resolve1(self.cidsysteminfo.get(key, b"unknown"))
+        if not isinstance(value, bytes):
+            log.warning(
+                f"Ignoring {key} of CIDSystemInfo because {value!r} is not a string"
+            )
+            value = b"unknown"
+        return value.decode("latin1")
 
     @staticmethod
     def _parse_dw2(spec: Mapping[str, Any]) -> Tuple[float, float]:
